@@ -802,8 +802,10 @@ func (t *ZeroAllocTokenizer) tokenizeTemplatePath(path string) {
 	path = strings.TrimSpace(path)
 
 	// If it's a quoted string (a lone quote character is not one)
+	// (one string: 'ba' ~ 'se' begins and ends with a quote too, but has more in between)
 	if len(path) >= 2 && ((strings.HasPrefix(path, "\"") && strings.HasSuffix(path, "\"")) ||
-		(strings.HasPrefix(path, "'") && strings.HasSuffix(path, "'"))) {
+		(strings.HasPrefix(path, "'") && strings.HasSuffix(path, "'"))) &&
+		!strings.Contains(strings.ReplaceAll(path[1:len(path)-1], "\\"+path[:1], ""), path[:1]) {
 		// Extract content without quotes
 		content := path[1 : len(path)-1]
 		t.AddToken(TOKEN_STRING, content, t.line)
